@@ -645,6 +645,7 @@ func (x *fnCtx) callSiteClauses(st *State, fr *Frame, in ssa.Instruction, c *ssa
 		if !cl.appliesTo(x.eng.prop) || !matchCallee(cl.Arg, name) {
 			continue
 		}
+		x.hitAtCall(cl)
 		if cl.Loop != 0 && fr.isTop {
 			inLoop := func(n int) bool {
 				return n >= 1 && n <= len(x.hdrList) && x.loopBlocks(x.hdrList[n-1])[in.Block()]
@@ -1112,4 +1113,60 @@ func calleeTypesPkg(callee *ssa.Function) *types.Package {
 		return o.Pkg()
 	}
 	return nil
+}
+
+// sendName: a send is named after the struct field that holds the channel
+// (chan.send.Chans.dirChan), or plain chan.send.
+func sendName(ch ssa.Value) string {
+	if u, ok := ch.(*ssa.UnOp); ok && u.Op == token.MUL {
+		if fa, ok := u.X.(*ssa.FieldAddr); ok {
+			if pt, ok := fa.X.Type().Underlying().(*types.Pointer); ok {
+				if st, ok := pt.Elem().Underlying().(*types.Struct); ok {
+					if nt, ok := pt.Elem().(*types.Named); ok {
+						return "chan.send." + nt.Obj().Name() + "." + st.Field(fa.Field).Name()
+					}
+				}
+			}
+		}
+	}
+	return "chan.send"
+}
+
+// sendEvent: a channel send is an event of the ghost trace ($0 the channel, $1 the value) and
+// a site for `at_call chan.send... requires` clauses of the function under verification.
+func (x *fnCtx) sendEvent(st *State, fr *Frame, in *ssa.Send, ch, val *Val) {
+	if x.con == nil {
+		return
+	}
+	name := sendName(in.Chan)
+	args := []*Val{ch, val}
+	top := fr
+	if len(st.frames) > 0 {
+		top = st.frames[0]
+	}
+	if x.eng.cfg.Layers["contract"] {
+		for _, cl := range x.con.ClausesOf("at_call") {
+			if !cl.appliesTo(x.eng.prop) || !matchCallee(cl.Arg, name) {
+				continue
+			}
+			x.hitAtCall(cl)
+			names := map[string]nameBind{}
+			for k, v := range top.names {
+				names[k] = v
+			}
+			names["$0"] = nameBind{v: ch}
+			names["$1"] = nameBind{v: val}
+			env := &specEnv{x: x, st: st, heap: st.heap, old: top.oldHeap, names: names, fr: top}
+			g := x.evalSpecBool(env, cl.Expr)
+			x.addVC(st, x.short, "at_call", cl.Ord, fmt.Sprintf("%d", x.ord(fr, in)), g, fmt.Sprintf("at %s: %s", name, cl.Text), x.eng.posStr(in.Pos()))
+		}
+	}
+	x.recordTrace(st, name, nil, nil, args, nil)
+}
+
+func (x *fnCtx) hitAtCall(cl *Clause) {
+	if x.atCallHit == nil {
+		x.atCallHit = map[*Clause]bool{}
+	}
+	x.atCallHit[cl] = true
 }
